@@ -10,6 +10,7 @@ text denotes (every number equal to the denoted number), a rejection is reported
 import random
 from props import calls as C
 from props import aspif_ref as R
+from props import reuse as RU
 
 PID = 'C03'
 HARNESS = 'h_c03'
@@ -27,15 +28,15 @@ def variant_of(c):
 
 
 def primed(c):
-    """harness/reuse.h: every other case (FNV-1a over the case's integers, bit 17) is read by a reader OBJECT that has read an accepted
-    incremental primer text before (reader reuse; invisible for a correct reader, so neither the model nor the oracle depends on it)"""
-    h = 1469598103934665603
-    for x in c:
-        h = ((h ^ (x & 0xFFFFFFFFFFFFFFFF)) * 1099511628211) & 0xFFFFFFFFFFFFFFFF
-    return bool((h >> 17) & 1)
+    """harness/reuse.h: every other case (FNV-1a over the case's integers, bit 17) is read by a reader OBJECT that has read - or REFUSED - a
+    primer text before, chosen by further hash bits (props/reuse.py reads the primer tables from reuse.h; reader reuse is invisible for a
+    correct reader, so neither the model nor the oracle depends on it)"""
+    return RU.primed(c)
 
 
-REUSED = 'reused(after reading %r)' % b'asp 1 0 0 incremental\n0\n'
+def reader(c):
+    """which reader object read the case (for describe)"""
+    return RU.reader(c, 'aspif')
 
 
 def mk(mode, n, text):
@@ -48,7 +49,7 @@ def text_of(c):
 
 def describe(c):
     t = text_of(c)
-    return 'mode=%s N=%d reader=%s text=%r' % ('complete' if c[0] == 0 else 'incremental', c[1], REUSED if primed(c) else 'fresh',
+    return 'mode=%s N=%d reader=%s text=%r' % ('complete' if c[0] == 0 else 'incremental', c[1], reader(c),
                                                t[:400] + (b'...' if len(t) > 400 else b''))
 
 
@@ -328,6 +329,8 @@ def mutate(case, rnd):
 RULE = ('cases = (read mode, BUF_SIZE in {4096,16,32,67}, text); three streams: valid programs under random layouts (tabs, CR, CRLF, LF, "+", leading zeros, '
         'comment lines, body code 2, odd string separators), single-fault (one field replaced by a boundary neighbour / 19-40 digit number / 2^63+-1 / 2^64+-k, one count '
         '+-1, directive code changed, token deleted, string length changed, truncation, extra input), token soup; plus ~45 fixed boundary texts x modes x sizes; '
+        ''
+        'every other case (hash of the case) is read by a reader OBJECT that before read or REFUSED one of the 8 aspif primer texts of harness/reuse.h (accepted incremental ones; refused inside a rule / theory atom / string / second step / problem line, as extra input); '
         'non-trivial = at least one directive delivered or rejected after the step began; distinct = distinct case tuples')
 TRUSTED_BASE = ['props/aspif_ref.py judge (independent python recogniser used as oracle on the implementation)',
                 'coq/C09/Spec.v abstract stream (C09 proves the real BufferedStream refines it; not re-proved here)']
